@@ -254,6 +254,153 @@ fn generated_program(t: &mut Tape) -> String {
     print_program(&p, &SurfacePlan::default()).text
 }
 
+
+/// Syntactically valid, semantically arbitrary: identifier occurrences of a valid program are replaced by other
+/// identifiers of the same program (unresolved / ill-typed / cyclic / duplicate definitions), literals by
+/// literals of another type, operators by other operators.
+fn identifier_mutation(t: &mut Tape, src: &str) -> String {
+    let mut s = src.to_string();
+    let n = t.below(3) + 1;
+    const KEYWORDS: &[&str] = &[
+        "fn", "pu", "do", "end", "if", "elif", "else", "loop", "break", "continue", "ret", "case", "blob", "enum", "use", "from", "as",
+        "and", "or", "not", "true", "false", "nil", "int", "float", "str", "bool", "void", "external", "in",
+    ];
+    for _ in 0..n {
+        let toks = tokens_of(&s);
+        let is_ident = |x: &str| x.chars().next().map(|c| c.is_alphabetic() || c == '_').unwrap_or(false) && !KEYWORDS.contains(&x);
+        let idents: Vec<usize> = (0..toks.len()).filter(|&i| is_ident(&s[toks[i].0..toks[i].1])).collect();
+        if idents.len() < 2 {
+            break;
+        }
+        match t.below(6) {
+            0 | 1 | 2 => {
+                // one identifier occurrence becomes another identifier of the program
+                let a = idents[t.below(idents.len())];
+                let b = idents[t.below(idents.len())];
+                let tb = s[toks[b].0..toks[b].1].to_string();
+                s.replace_range(toks[a].0..toks[a].1, &tb);
+            }
+            3 => {
+                // a definition is renamed to the name of another definition (duplicates, shadowing)
+                let defs: Vec<usize> = idents.iter().copied().filter(|&i| s[toks[i].1..].trim_start_matches(' ').starts_with(':')).collect();
+                if defs.len() >= 2 {
+                    let a = defs[t.below(defs.len())];
+                    let b = defs[t.below(defs.len())];
+                    let tb = s[toks[b].0..toks[b].1].to_string();
+                    s.replace_range(toks[a].0..toks[a].1, &tb);
+                }
+            }
+            4 => {
+                // a number becomes a string or a bool, or the other way round
+                let lits: Vec<usize> = (0..toks.len())
+                    .filter(|&i| {
+                        let x = &s[toks[i].0..toks[i].1];
+                        x.chars().all(|c| c.is_ascii_digit()) && !x.is_empty() || x == "true" || x == "false"
+                    })
+                    .collect();
+                if !lits.is_empty() {
+                    let a = lits[t.below(lits.len())];
+                    let r = *t.pick(&["\"s\"", "true", "1", "2.5", "nil", "(1, 2)", "[1]"]);
+                    s.replace_range(toks[a].0..toks[a].1, r);
+                }
+            }
+            _ => {
+                // `::` <-> `:=`, `fn` <-> `pu`
+                if let Some(pos) = s.find(" :: ").filter(|_| t.bool()) {
+                    s.replace_range(pos..pos + 4, " := ");
+                } else if let Some(pos) = s.find("fn ") {
+                    s.replace_range(pos..pos + 2, "pu");
+                }
+            }
+        }
+    }
+    s
+}
+
+/// A random dependency graph among top-level definitions: values, mutable values, functions (called or only
+/// mentioned), blobs whose fields mention other blobs; self loops, mutual recursion and longer cycles included.
+fn dependency_graph(t: &mut Tape) -> String {
+    let n = t.below(6) + 1;
+    // kind: 0 constant value, 1 mutable value, 2 function, 3 function with parameter, 4 blob
+    let kinds: Vec<usize> = (0..n).map(|_| t.weighted(&[25, 10, 35, 15, 15])).collect();
+    let mut out = String::new();
+    let mut order: Vec<usize> = (0..n).collect();
+    for i in (1..n).rev() {
+        let j = t.below(i + 1);
+        order.swap(i, j);
+    }
+    let mention = |t: &mut Tape, j: usize, kinds: &[usize]| -> String {
+        match kinds[j] {
+            0 | 1 => format!("g{}", j),
+            2 => if t.chance(5, 6) { format!("g{}()", j) } else { format!("g{}", j) },
+            3 => if t.chance(5, 6) { format!("g{}(1)", j) } else { format!("g{}", j) },
+            _ => format!("G{} {{ }}", j),
+        }
+    };
+    for &i in &order {
+        let deps: Vec<usize> = (0..t.below(4)).map(|_| t.below(n)).collect();
+        match kinds[i] {
+            0 | 1 => {
+                let op = if kinds[i] == 0 { "::" } else { ":=" };
+                let mut e = String::from("1");
+                for &d in &deps {
+                    if kinds[d] == 4 {
+                        continue;
+                    }
+                    e.push_str(" + ");
+                    e.push_str(&mention(t, d, &kinds));
+                }
+                out.push_str(&format!("g{} {} {}\n", i, op, e));
+            }
+            2 | 3 => {
+                let params = if kinds[i] == 3 { "a: int " } else { "" };
+                let kw = if t.chance(1, 6) { "pu" } else { "fn" };
+                out.push_str(&format!("g{} :: {} {}-> int do\n", i, kw, params));
+                let mut e = String::from(if kinds[i] == 3 { "a" } else { "1" });
+                for &d in &deps {
+                    if kinds[d] == 4 {
+                        out.push_str(&format!("    b{} :: G{} {{ }}\n", d, d));
+                        continue;
+                    }
+                    if t.chance(1, 5) {
+                        out.push_str(&format!("    if false do\n        g{} = 2\n    end\n", d));
+                    }
+                    e.push_str(" + ");
+                    e.push_str(&mention(t, d, &kinds));
+                }
+                out.push_str(&format!("    {}\nend\n", e));
+            }
+            _ => {
+                out.push_str(&format!("G{} :: blob {{", i));
+                let mut first = true;
+                for &d in &deps {
+                    if !first {
+                        out.push(',');
+                    }
+                    first = false;
+                    if kinds[d] == 4 {
+                        out.push_str(&format!(" f{}: G{}", d, d));
+                    } else {
+                        out.push_str(&format!(" f{}: int", d));
+                    }
+                }
+                out.push_str(" }\n");
+            }
+        }
+    }
+    out.push_str("start :: fn do\n");
+    for i in 0..n {
+        if t.bool() {
+            match kinds[i] {
+                4 => {}
+                _ => out.push_str(&format!("    print({})\n", mention(t, i, &kinds))),
+            }
+        }
+    }
+    out.push_str("end\n");
+    out
+}
+
 fn soup(t: &mut Tape) -> String {
     let n = t.below(120) + 1;
     let mut s = String::new();
@@ -325,7 +472,12 @@ impl Check for C07 {
     fn generate(&self, u: &mut Unstructured, _tier: Tier) -> Option<Case> {
         let mut t = Tape::new(u);
         let c = corpus();
-        let (project, origin) = match t.weighted(&[20, 30, 15, 15, 20, 25]) {
+        let (project, origin) = match t.weighted(&[20, 30, 15, 15, 20, 25, 25, 15]) {
+            6 => {
+                let a = if t.chance(2, 3) { generated_program(&mut t) } else { t.pick(c).clone() };
+                (Project::single(identifier_mutation(&mut t, &a)), "identifier-mutation")
+            }
+            7 => (Project::single(dependency_graph(&mut t)), "dependency-graph"),
             5 => {
                 // a full-size valid generated program (the sizes C01 uses), with a random subset of its type
                 // annotations erased (inference does more work then)
@@ -505,7 +657,7 @@ impl Check for C07 {
         "cases: (1) token soup over the full token alphabet with statement fragments, (2) byte/token/line mutations, truncations \
          and splices of the programs under /repo/tests, (3) the same on generated valid programs, (4) every statement kind \
          misplaced into 9 contexts, (5) 1-4 file projects with missing/cyclic/duplicate/aliased imports, conflict markers, empty \
-         and comment-only files; std on and off; files are materialised so that error rendering reads real sources. Oracle: \
+         and comment-only files, (6) valid generated programs with erased annotations, (7) identifier-level mutations of valid programs (an identifier occurrence or a definition's name becomes another identifier of the program, literals change type, `::`<->`:=`, `fn`<->`pu`: syntactically valid, semantically arbitrary), (8) random dependency graphs among top-level values, functions and blobs (self loops, mutual recursion, longer cycles); std on and off; files are materialised so that error rendering reads real sources. Oracle: \
          compile returns Accepted(non-empty Lua) or Rejected(non-empty error list, zero bytes written), every error's Display \
          renders without panicking to non-empty text, no panic; a child process that dies (abort/OOM at 6 GiB address space/30 s \
          watchdog) is a violation. non-trivial = fewer than 20% error tokens and the input reaches name resolution or later \
